@@ -662,6 +662,18 @@ pub fn c14(tier: Tier) -> i32 {
             if known_here {
                 continue;
             }
+            // a spelling that differs from a documented name of this list only in letter case, white space or punctuation
+            // (`address-balance`, `addressbalance`, ` sstore`, `sstore?`) is a tolerant spelling, which the property neither
+            // demands nor forbids: only strings that no such reading turns into a name of this list count as unknown
+            let canon = |x: &str| x.chars().filter(|c| c.is_alphanumeric()).flat_map(|c| c.to_lowercase()).collect::<String>();
+            let documented: &[&str] = match list {
+                0 => crate::dets::OPT_NAMES,
+                1 => crate::dets::VULN_NAMES,
+                _ => crate::dets::QA_NAMES,
+            };
+            if documented.iter().any(|d| canon(d) == canon(u)) {
+                continue;
+            }
             for pos in 0..3 {
                 let valid: Vec<String> = match list {
                     0 => vec![on[0].clone(), on[1].clone()],
